@@ -39,7 +39,7 @@ def model(chk, p):
     chk.model("MC_Units ZeroEntriesKept=TRUE", t, "regression: zero entries kept by Powers::insert violate FactorIff (expected)")
 
 
-FIXED = ["1J/N to m", "1 m + 1 J/N", "1J/N + 1m", "1V*A to W", "1 W - 1 V*A", "1C/s to A", "1 A + 1 C/s", "1 N*m to J", "1 Pa*m^2 to N",
+FIXED = ["1m + 0s", "1m - 0kg", "0 m + 1 s", "1m + (2s - 2s)", "1 + 0m", "0 + 1m", "1 J/Nm + 1 s", "1 Nm/J to s", "1 kg to W/VA", "1J/N to m", "1 m + 1 J/N", "1J/N + 1m", "1V*A to W", "1 W - 1 V*A", "1C/s to A", "1 A + 1 C/s", "1 N*m to J", "1 Pa*m^2 to N",
          "3 + 1m", "1m + 3", "3 - 1m", "1m - 3", "1 kg to m", "1 m + 1 s", "1 W to J", "1 J/s to W", "1 m^2 to ha", "1 l to m^3", "1 l to m^2",
          "1 km/h to m/s", "1 kt to m/s", "1 Hz to s", "1 Bq to s^-1", "1 ohm to V/A", "1 S to A/V", "1 F to C/V", "1 H to Wb/A", "1 T to Wb/m^2",
          "1 lx to lm/m^2", "1 Gy to J/kg", "1 kat to mol/s", "2 ft + 3 in", "2 ft - 3 lb", "5 mi/hr to km/s", "1 acre to ft^2", "1 gal to l"]
@@ -61,6 +61,10 @@ def generate(rnd, n):
         sa, sb = ug.spell(a), ug.spell(b)
         qa, qb = ugen.magnitude(rnd, True) + rnd.choice(["", " "]) + sa, ugen.magnitude(rnd, True) + rnd.choice(["", " "]) + sb
         form = rnd.random()
+        if rnd.random() < 0.05:
+            # an operand that only evaluates to zero
+            qb = "(%s - %s)" % (qb, qb)
+            form = rnd.random() * 0.5
         if form < 0.3:
             out.append("%s + %s" % (qa, qb))
         elif form < 0.5:
